@@ -382,9 +382,121 @@ var commonAssumptions = []string{
 	"sequentially consistent single-thread execution unless the harness starts engine threads",
 }
 
+// cmdSolverDiff records the complete query stream of a property's quick run
+// (one SMT-LIB2 transcript per worker) and replays it through z3 5.1.0
+// (z3-new) and cvc5; every verdict must agree with the one z3 4.8.12 gave.
 func cmdSolverDiff(args []string) int {
-	fmt.Println("solverdiff: not built yet")
-	return 2
+	if len(args) < 1 {
+		usage()
+	}
+	id := args[0]
+	fs := flag.NewFlagSet("solverdiff", flag.ExitOnError)
+	maxQ := fs.Int("max-queries", 4000, "queries replayed per transcript")
+	fs.Parse(args[1:])
+	prop, ok := properties[id]
+	if !ok {
+		fatal(fmt.Errorf("unknown property %s", id))
+	}
+	eng := loadEngine()
+	dir := filepath.Join(runDir, "transcripts")
+	os.MkdirAll(dir, 0o755)
+	cases := prop.cases("quick", 0)
+	if len(cases) > 40 {
+		cases = cases[:40]
+	}
+	_, st := eng.Explore(cases, 8, symx.Limits{MaxPaths: 3000}, dir)
+	fmt.Printf("recorded %d queries from %d cases of %s\n", st.Queries, len(cases), id)
+	files, _ := filepath.Glob(filepath.Join(dir, "*.smt2"))
+	total, disagree := 0, 0
+	for _, f := range files {
+		ab, err := os.ReadFile(f + ".answers")
+		if err != nil {
+			continue
+		}
+		want := strings.Fields(string(ab))
+		script, n := truncateTranscript(f, *maxQ)
+		want = want[:n]
+		for _, sv := range [][]string{{"z3-new", "-in"}, {"cvc5", "--incremental", "--lang", "smt2"}} {
+			got, err := runSolverOn(sv, script)
+			if err != nil {
+				fmt.Printf("  %s on %s: %v\n", sv[0], filepath.Base(f), err)
+				disagree++
+				continue
+			}
+			if len(got) != len(want) {
+				fmt.Printf("  %s on %s: %d answers, expected %d\n", sv[0], filepath.Base(f), len(got), len(want))
+				disagree++
+				continue
+			}
+			for i := range want {
+				total++
+				if got[i] != want[i] {
+					disagree++
+					if disagree < 10 {
+						fmt.Printf("  DISAGREE %s query %d of %s: z3 4.8.12 %s, %s %s\n", sv[0], i, filepath.Base(f), want[i], sv[0], got[i])
+					}
+				}
+			}
+		}
+	}
+	fmt.Printf("solverdiff %s: %d verdicts compared against z3-new 5.1.0 and cvc5, %d disagreements\n", id, total, disagree)
+	if disagree > 0 {
+		return 2
+	}
+	return 0
+}
+
+// truncateTranscript cuts the transcript after maxQ check-sat commands at a
+// point where the push/pop depth is zero; returns the script and the number
+// of check-sats it contains.
+func truncateTranscript(path string, maxQ int) (string, int) {
+	b, _ := os.ReadFile(path)
+	lines := strings.Split(string(b), "\n")
+	var out []string
+	depth, q := 0, 0
+	for _, l := range lines {
+		out = append(out, l)
+		switch {
+		case strings.HasPrefix(l, "(push"):
+			depth++
+		case strings.HasPrefix(l, "(pop"):
+			depth--
+			if depth == 0 && q >= maxQ {
+				return strings.Join(out, "\n") + "\n", q
+			}
+		case l == "(check-sat)":
+			q++
+		}
+	}
+	return strings.Join(out, "\n") + "\n", q
+}
+
+func runSolverOn(argv []string, script string) ([]string, error) {
+	if argv[0] == "cvc5" {
+		script = "(set-logic QF_BV)\n" + script
+	}
+	cmd := exec.Command(argv[0], argv[1:]...)
+	cmd.Stdin = strings.NewReader(script + "(exit)\n")
+	var buf bytes.Buffer
+	cmd.Stdout = &buf
+	cmd.Stderr = &buf
+	err := cmd.Run()
+	var ans []string
+	for _, l := range strings.Split(buf.String(), "\n") {
+		l = strings.TrimSpace(l)
+		switch l {
+		case "sat", "unsat", "unknown":
+			ans = append(ans, l)
+		default:
+			if strings.HasPrefix(l, "(error") {
+				return nil, fmt.Errorf("solver error: %s", l)
+			}
+		}
+	}
+	if err != nil && len(ans) == 0 {
+		return nil, err
+	}
+	return ans, nil
 }
 
 func cmdSelftest(args []string) int {
